@@ -172,7 +172,10 @@ def one_violation(prop: str, problems: list[tuple[str, str, str]], h: Any = None
             x = sw[0]
             sweepwindow = [f"{x['queued']}:{x['stage']}"]
             sig += "<-sweep-inside-claim-plan-window"
-            if x["how"] == "inside":
+            if x["how"] == "rearmed-during-sweep":
+                d = (f"a recovery sweep queued {x['queued']} for stage {x['stage']}, which was RUNNING when the sweep began and had been "
+                     f"re-armed by a jump before the push landed (check and push are not atomic)")
+            elif x["how"] == "inside":
                 d = (f"a recovery sweep queued {x['queued']} for stage {x['stage']} between the claim commit and the last planning "
                      f"commit of StartStage {x['msg']}: it started a stage whose planning (tasks / before-stages) was not durable yet")
             else:
